@@ -154,6 +154,17 @@ def cks_extra(tier, seed):
             g = [r.choice([0x11, 0x12, 0x16, 0x17, 0x22, 0x30, 0x99]), r.randrange(256)] + rb(6)
             gl = r.choice([0, 0, 4, 8, 12, 20]) if g[0] == 0x11 else r.choice([0, 0, 8, 16])
             out.append({'kind': 'igmp', 'src': [], 'dst': [], 'hdr': g, 'payload': rb(gl)})
+    # beyond 2^16: IPv4 pseudo header / UDP length field cannot hold the length; IPv6 pseudo header carries the real 32 bit length
+    for ln in ([65527, 65528, 70001] if tier == 'quick' else [65515, 65516, 65527, 65528, 65535, 65536, 70001, 131073]):
+        pl = rb(ln, 'rnd')
+        s6, d6, ports = rb(16), rb(16), rb(8)
+        out.append({'kind': 'udp4', 'src': [10, 0, 0, 1], 'dst': [10, 0, 0, 2], 'hdr': ports, 'payload': pl})
+        out.append({'kind': 'udp6', 'src': s6, 'dst': d6, 'hdr': ports, 'payload': pl, **({'udplen': 0} if ln > 65527 else {})})
+        th = rb(20)
+        th[12] = (5 << 4) | (th[12] & 1)
+        out.append({'kind': 'tcp4', 'src': [10, 0, 0, 1], 'dst': [10, 0, 0, 2], 'hdr': th, 'payload': pl})
+        out.append({'kind': 'tcp6', 'src': s6, 'dst': d6, 'hdr': th, 'payload': pl})
+        out.append({'kind': 'icmp6', 'src': s6, 'dst': d6, 'hdr': [128, 0] + rb(6), 'payload': pl})
     for ihl in range(5, 16):
         for rep in range(6 if tier == 'quick' else 40):
             h = rb(4 * ihl)
